@@ -3,7 +3,9 @@ package main
 import (
 	"encoding/json"
 	"fmt"
+	"sort"
 	"strings"
+	"unicode"
 	"unicode/utf8"
 )
 
@@ -94,6 +96,46 @@ func runLexBatch(c *CheckCtx, s *Slot, texts []string) {
 	}
 }
 
+// unicodeRepresentatives returns first/middle/last runes of every Unicode
+// general category plus a few runes with special roles in lexers.
+func unicodeRepresentatives() []string {
+	var names []string
+	for name := range unicode.Categories {
+		names = append(names, name)
+	}
+	sort.Strings(names)
+	seen := map[rune]bool{}
+	var out []string
+	add := func(r rune) {
+		if r < 0 || r > unicode.MaxRune || seen[r] || (r >= 0xD800 && r <= 0xDFFF) {
+			return
+		}
+		seen[r] = true
+		out = append(out, string(r))
+	}
+	for _, name := range names {
+		tab := unicode.Categories[name]
+		var los, his []rune
+		for _, r16 := range tab.R16 {
+			los, his = append(los, rune(r16.Lo)), append(his, rune(r16.Hi))
+		}
+		for _, r32 := range tab.R32 {
+			los, his = append(los, rune(r32.Lo)), append(his, rune(r32.Hi))
+		}
+		if len(los) == 0 {
+			continue
+		}
+		add(los[0])
+		add(his[0])
+		add(los[len(los)/2])
+		add(his[len(his)-1])
+	}
+	for _, r := range []rune{0x01, 0x07, 0x08, 0x0b, 0x0c, 0x0d, 0x1a, 0x1b, 0x7f, 0x85, 0x9b, 0xa0, 0xad, 0x200b, 0x200d, 0x2028, 0x2029, 0x3000, 0xfeff, 0xfffd, 0xff15, 0x0663, 0x0969, 0x1d7ce, 0x2460, 0x00b2, 0x00bd, 0x1f600, 0x10ffff} {
+		add(r)
+	}
+	return out
+}
+
 func enumStrings(alphabet []string, maxLen int) []string {
 	out := []string{""}
 	prev := []string{""}
@@ -136,10 +178,29 @@ func init() {
 			if !c.Quick() {
 				alphabet, maxLen = lexAlphabetThorough, 5
 			}
-			c.rule = fmt.Sprintf("exhaustive: every string of length <= %d over the %d-symbol hostile alphabet %q plus seeded corpus prefixes and random rune strings with heredoc starts and multi-line strings; each text is fed to the lexer probe hook, which calls Lexer.Advance() until it returns false and Parser.Read() until it returns the end token, and reports call counts, the reader position and pending push-back. distinct_nontrivial = distinct texts that produced at least one token", maxLen, len(alphabet), alphabet)
+			c.rule = fmt.Sprintf("exhaustive: every string of length <= %d over the %d-symbol hostile alphabet %q plus first/middle/last runes of every Unicode general category (and lexer-relevant specials: C0/C1 controls, non-ASCII digits and spaces, BOM, zero-width) in 20 fixed contexts and paired with every alphabet symbol and with each other, plus seeded corpus prefixes and random rune strings with heredoc starts and multi-line strings; each text is fed to the lexer probe hook, which calls Lexer.Advance() until it returns false and Parser.Read() until it returns the end token, and reports call counts, the reader position and pending push-back. distinct_nontrivial = distinct texts that produced at least one token", maxLen, len(alphabet), alphabet)
 			c.assumptions = []string{"the probe observes the public lexer/parser API directly (reader position through a verif-tagged accessor); this is the observation point the property names, so no black-box confirmation exists for this check"}
 			var texts []string
 			texts = append(texts, enumStrings(alphabet, maxLen)...)
+			// every Unicode general category is represented: first, middle and last
+			// rune of each category, in fixed lexical contexts (exhaustive for this
+			// family), and in all pairs with the hostile alphabet
+			reps := unicodeRepresentatives()
+			ctxs := []string{"%s", "x%s", "%sx", "1%s", "%s1", "+%s", "-%s", "x = %s\ny = 2\n", "\"%s\"", "# %s\n1", "x.%s", ":%s", "%s:", "@%s", "[%s]", "x %s y", "%s\n%s", "1.%s", "%s.5", "a:\"%s"}
+			for _, rp := range reps {
+				for _, cx := range ctxs {
+					texts = append(texts, strings.ReplaceAll(cx, "%s", rp))
+				}
+				for _, a := range alphabet {
+					texts = append(texts, rp+a, a+rp, a+rp+a)
+				}
+			}
+			for i := 0; i < len(reps); i++ {
+				for j := 0; j < len(reps); j += 1 + len(reps)/c.N(12, 60) {
+					texts = append(texts, reps[i]+reps[j])
+				}
+			}
+			c.Extra("unicode_representatives", len(reps))
 			exhaustiveN := len(texts)
 			texts = append(texts, hostileStrings()...)
 			items := Corpus()
